@@ -70,7 +70,9 @@ def c07_order_dependent_selection(v):
     if not (isinstance(w, (list, tuple)) and len(w) == 2 and isinstance(w[1], str)):
         return False
     src = w[1]
-    return w[0] == "organize_imports" and "second time" in (v.get("clause") or "") and src.count("import pkg") >= 2
+    header = src.split("\n\n")[0]
+    n_pkg = sum(1 for l in header.split("\n") if l.startswith(("import pkg", "from pkg")))
+    return w[0] in ("organize_imports", "froms_to_imports") and "second time" in (v.get("clause") or "") and n_pkg >= 2
 
 
 def c07_star_plus_alias(v):
